@@ -157,7 +157,7 @@ class TransformedMessage(MessageInterface):
         self, samples, log_weight_list, **_,
     ):
         return TransformedMessage(
-            self.base_message.project(samples, log_weight_list),
+            self.base_message.project(self._transform(samples), log_weight_list),
             *self.transforms,
             id_=self.id,
         )
